@@ -145,6 +145,10 @@ def drive_cli(item):
     perm, inv, trk, shapes = setup_project(sb, scn, variant, backend)
     sub = variant % 17 == 0  # a fresh interpreter for a sample
     sel = [perm[t] for t in scn["sel"]]
+    # for a share of the "none given" scenarios: patterns that match no target (typo, unmatched glob)
+    nomatch = scn.get("nomatch", (not sel) and variant % 4 == 1)
+    if nomatch:
+        sel = ["Nonexistent*", "zzz_no_such_target"]
     obs = {"has_status": False, "has_subs": False, "has_dry": False, "status": {}, "subs": [], "dry": [], "err": ""}
     errs = []
     snap0 = sb.digest()
@@ -190,7 +194,7 @@ def drive_cli(item):
     obs["mut_dry"] = mutating(c2)
     obs["err"] = "; ".join(errs)
     s2 = dict(scn)
-    s2.update(trk={inv[n]: j for n, j in trk.items()}, shapes=shapes, variant=variant, level="cli", backend=backend, sub=sub)
+    s2.update(trk={inv[n]: j for n, j in trk.items()}, shapes=shapes, variant=variant, level="cli", backend=backend, sub=sub, nomatch=bool(nomatch))
     return {"id": rid, "scn": s2, "obs": obs}
 
 
